@@ -107,6 +107,47 @@ def bodies(tier, b, seed):
     return out
 
 
+def tail_programs(b):
+    """the same call made first inside a region whose guard is 0 (on operands that may be invalid) and then AFTER the region on
+    valid operands, against a run that never entered the region: a false guard must leave nothing behind."""
+    calls = {
+        "assert_lt": lambda r: {"op": "meth", "name": "assert_lt", "a": r, "args": [{"c": 3}]},
+        "assert_gt": lambda r: {"op": "meth", "name": "assert_gt", "a": r, "args": [{"c": 3}]},
+        "assert_eq": lambda r: {"op": "meth", "name": "assert_eq", "a": r, "args": [{"c": 1}]},
+        "assert_range": lambda r: {"op": "meth", "name": "assert_range", "a": r, "args": [{"c": 0}, {"c": 3}]},
+        "lt": lambda r: {"op": "bin", "name": "lt", "a": r, "b": {"c": 3}},
+        "addc": lambda r: {"op": "bin", "name": "add", "a": r, "b": {"c": 3}},
+        "truediv": lambda r: {"op": "bin", "name": "truediv", "a": r, "b": {"c": 3}},
+        "pow": lambda r: {"op": "bin", "name": "pow", "a": r, "b": {"c": 0}},
+        "to_bits": lambda r: {"op": "meth", "name": "to_bits", "a": r},
+        "ensurelc": lambda r: {"op": "call", "fn": "ensurelc", "args": [{"c": 3}]},
+        "unpack": lambda r: {"op": "unpack", "schema": ["intmod", 3], "a": {"l": [r, r]}},
+    }
+    out = []
+    for nm, mk in calls.items():
+        for (x, y) in ((5, 1), (-1, 2), (3, 0), (1, 1), (4, 3)):
+            for style in ("lc", "bool"):
+                for variant in ("T", "G"):
+                    B = gen.Builder("tail/%s/%d,%d/%s/%s" % (nm, x, y, style, variant), "plain", None, {"op": "tail_" + nm, "kinds": "S", "variant": variant})
+                    rx, ry = B.opnd(("S", x)), B.opnd(("S", y & 1 if nm == "unpack" else y))
+                    if variant == "G":
+                        rg = B.opnd(("SB" if style == "bool" else "S", 0))
+                        B.add({"op": "guarded", "cond": rg, "body": [mk(rx)]})
+                    t1 = mk(ry)
+                    t1["tag"] = "tail"
+                    B.add(t1)
+                    t2 = {"op": "bin", "name": "mul", "a": ry, "b": {"c": 2}, "tag": "tail"}
+                    B.add(t2)
+                    out.append(B.build())
+    return out
+
+
+def tail_events(tr):
+    return [{"op": e["op"], "name": e["name"], "out": e["out"], "exc": e["exc"],
+             "args": [[{"k": x["k"], "v": x["v"], "w": x["w"]} for x in a] for a in e["args"]],
+             "res": [{"k": x["k"], "v": x["v"], "w": x["w"], "m": x["m"]} for x in e["res"]]} for e in tr["events"] if e.get("tag") == "tail"]
+
+
 def body_events(tr):
     m = tr["meta"]
     evs = tr["events"]
@@ -162,10 +203,21 @@ def main(tier):
     for key, iu, i1, i0, st in index:
         tu, t1, t0 = byid[iu], byid[i1], byid[i0]
         triples.append({"id": key, "ids": [iu, i1, i0], "u": body_events(tu), "g1": body_events(t1), "g0": body_events(t0),
-                        "bodylen": pbyid[iu]["meta"].get("nbody", len(body_events(tu)))})
+                        "bodylen": pbyid[iu]["meta"].get("nbody", len(body_events(tu))), "cut": True})
         g0traces.append(t0)
         m = tu["meta"]
         run.nontrivial.add((m.get("op", m.get("kind")), m.get("kinds"), st, pbyid[i1]["meta"]["mode"]))
+    # tails: code after a false-guard region behaves as if the region had not been there
+    tp = tail_programs(b)
+    tt = {t["id"]: t for t in common.run_programs(cfg, tp)}
+    for p in tp:
+        if p["meta"]["variant"] != "G":
+            continue
+        tid_ = p["id"][:-2]
+        triples.append({"id": tid_, "ids": [tid_ + "/T", p["id"], p["id"]], "u": tail_events(tt[tid_ + "/T"]), "g1": tail_events(tt[p["id"]]), "g0": [], "bodylen": 0, "cut": False})
+        pbyid[tid_ + "/T"] = next(q for q in tp if q["id"] == tid_ + "/T")
+        pbyid[p["id"]] = p
+        run.nontrivial.add((p["meta"]["op"], "tail", p["id"].split("/")[-2], "g0"))
     run.evaluations += len(triples)
     run.samples = [{"body": pbyid[triples[0]["ids"][0]]["steps"], "guarded_true": pbyid[triples[0]["ids"][1]]["steps"]}]
     from concurrent.futures import ThreadPoolExecutor
